@@ -63,6 +63,38 @@ def _dtype_tag(repo, m, e: ast.AST, env: dict[str, object], depth: int = 0):
     return None
 
 
+def counter_writers(ctx, rep, rule: str) -> None:
+    """The per-block failure counters change only through the tolerance routine: the local list is created once (in the state
+    initialisation) and never rebuilt, the masked list is only its compression by the gradient selector, and element stores
+    happen only inside _raise_exception_if_failure_tolerance_exceeded — a streak survives steps without a gradient."""
+    repo = ctx.repo
+    base = repo.cls(f"{PL_MOD}:BaseShampooPreconditionerList")
+    n = 0
+    for c in repo.subclasses(base):
+        for fi in c.methods.values():
+            for st in ast.walk(fi.node):
+                tgts = st.targets if isinstance(st, ast.Assign) else ([st.target] if isinstance(st, (ast.AnnAssign, ast.AugAssign)) else [])
+                for t in tgts:
+                    txt = ast.unparse(t)
+                    if "failed_amortized_computation_counter_list" not in txt:
+                        continue
+                    n += 1
+                    local = "_local_failed" in txt
+                    whole = isinstance(t, ast.Attribute)
+                    if whole and local:
+                        ok = fi.name == "_initialize_state_lists"
+                        why = "the local counter list is created once, in the state initialisation"
+                    elif whole:
+                        v = getattr(st, "value", None)
+                        ok = fi.name in ("_initialize_state_lists", "compress_preconditioner_list") and v is not None and ("compress_list(" in ast.unparse(v) or ast.unparse(v).endswith("_local_failed_amortized_computation_counter_list"))
+                        why = "the masked counter list is the local list or its compression by the gradient selector"
+                    else:
+                        ok = fi.name == "_raise_exception_if_failure_tolerance_exceeded"
+                        why = "element stores happen only in the tolerance routine"
+                    rep.ob(rule, f"counter-writers:{c.name}.{fi.name}", ok, fi.loc(st), f"`{ast.unparse(st)[:90]}`: {why}", sample=(n % 3 == 0))
+    rep.floor(rule, "stores to the failure-counter lists", n, 3)
+
+
 def error_class_reaches_the_caller(ctx, rep, rule: str) -> None:
     """The NaN/Inf rejection leaves step() as a PreconditionerValueError: no `try` on the way up (in any function of the
     repository from which a `raise PreconditionerValueError` is reachable) has a handler that would catch it — a handler for
@@ -120,6 +152,7 @@ def run(ctx, rep) -> None:
     rep.attempt("hyperparameters_from_group", hyperparameters_from_group, ctx, rep, "C13.5")
     rep.attempt("per_group_fresh", per_group_fresh, ctx, rep, "C13.5", ["distributed_shampoo.distributed_shampoo:DistributedShampoo._instantiate_shampoo_preconditioner_list"])
     rep.attempt("error_class_reaches_the_caller", error_class_reaches_the_caller, ctx, rep, "C13.2")
+    rep.attempt("counter_writers", counter_writers, ctx, rep, "C13.3")
     from .common import tensor_arguments_are_inputs
 
     rep.rule("C13.6", "the matrix routines never write into the tensors they are handed (the stored factor / eigenbasis passed as estimate survives a failure mid-routine unchanged)")
